@@ -901,7 +901,7 @@ def adversarial_case(ctx, i):
 
 
 def adversarial(ctx):
-    for i in range(ctx.n(220, 3000)):
+    for i in range(ctx.n(200, 3000)):
         adversarial_case(ctx, i)
 
 
